@@ -41,11 +41,13 @@ pub struct HeaderOpts {
     pub extras: bool,
     /// lengths of generated contigs are at least this (used by `coordinate_sorted_set`)
     pub min_contig_len: Option<usize>,
+    /// allow the FORMAT Number values VCF 4.5 adds (LA LR LG P M) in one 4.5 header out of six
+    pub v45_numbers: bool,
 }
 
 impl Default for HeaderOpts {
     fn default() -> Self {
-        HeaderOpts { fileformat: None, max_samples: 6, idx: IdxMode::None, model: Model::Full, extras: true, min_contig_len: None }
+        HeaderOpts { fileformat: None, max_samples: 6, idx: IdxMode::None, model: Model::Full, extras: true, min_contig_len: None, v45_numbers: true }
     }
 }
 
@@ -236,7 +238,7 @@ pub fn gen_header(rng: &mut Rng, o: &HeaderOpts) -> HeaderDesc {
         h.formats.push(FieldDef { id: "AD".into(), num: Num::R, ty: Ty::Integer, desc: "Allelic depths".into(), idx: None, extra: vec![] });
     }
     // the Number values VCF 4.5 adds (LA/LR/LG/P/M) in one header out of six
-    let fcombos = format_combos(ff >= (4, 5) && rng.chance(1, 6));
+    let fcombos = format_combos(o.v45_numbers && ff >= (4, 5) && rng.chance(1, 6));
     let fstart = rng.usize_below(fcombos.len());
     let nfmt = rng.urange(if common { 2 } else { 3 }, 10);
     for i in 0..nfmt {
@@ -403,7 +405,7 @@ pub const INT_BOUNDARY: &[i32] = &[
 ];
 
 pub fn gen_int(rng: &mut Rng, o: &RecOpts) -> i32 {
-    if o.invalid_ints && rng.chance(1, 40) {
+    if o.invalid_ints && rng.chance(1, 300) {
         return i32::MIN + rng.below(8) as i32;
     }
     if o.model == Model::Common {
@@ -465,8 +467,7 @@ pub fn gen_char(rng: &mut Rng, o: &RecOpts, allow_reserved: bool) -> char {
     match o.model {
         Model::Common => *rng.pick(&['A', 'C', 'G', 'T', 'x', 'y', '1']),
         Model::Bcf => match rng.below(10) {
-            0 => 'é',
-            1 => *rng.pick(&[';', '=', ':']),
+            0 | 1 => *rng.pick(&[';', '=', ':']),
             2 => ' ',
             _ => *rng.pick(PLAIN_CHARS),
         },
@@ -828,7 +829,7 @@ pub fn gen_record_at(rng: &mut Rng, h: &HeaderDesc, o: &RecOpts, place: Option<(
     }
     .min(defs.len());
     let char_reserved_record = full && rare(rng);
-    let missing_info_record = rare(rng);
+    let missing_info_record = rng.chance(1, o.rare.max(1) * 2);
     for d in defs.iter().take(n_info) {
         if d.id == "END" || d.id == "SVLEN" {
             continue; // handled below
